@@ -150,8 +150,12 @@ func historyGenerators(sp *histsim.Space, nopts int) []vexplore.Generator {
 	var gens []vexplore.Generator
 	for k := -1; k < len(ops); k++ {
 		k := k
-		gens = append(gens, vexplore.Generator{Name: fmt.Sprintf("%s subtree %d", sp.Name(), k), Gen: func(yield func(*vexplore.Scenario)) {
+		gens = append(gens, vexplore.Generator{Name: fmt.Sprintf("%s subtree %d", sp.Name(), k), Gen: func(yield func(*vexplore.Scenario) bool) {
+			stop := false
 			sp.Walk(func(w *histsim.World, trace []histsim.Op) bool {
+				if stop {
+					return false
+				}
 				if len(trace) == 0 {
 					if k >= 0 {
 						return true // descend, the initial world belongs to generator -1
@@ -179,7 +183,10 @@ func historyGenerators(sp *histsim.Space, nopts int) []vexplore.Generator {
 				}
 				for opt := 0; opt < nopts; opt++ {
 					sc := scenario(name, "histories/"+sp.Name(), len(sp.Fam.Children), in, opt)
-					yield(&sc)
+					if !yield(&sc) {
+						stop = true
+						return false
+					}
 				}
 				return k >= 0
 			})
@@ -278,7 +285,7 @@ func main() {
 		}
 		spaces := []spc{{"way3", histsim.CommitTime, 2, true}, {"rel4", histsim.CommitTime, 2, false}, {"way2r", histsim.CommitTime, 4, true}, {"way3", histsim.PreCommit, 2, false}}
 		if !r.Quick() {
-			spaces = []spc{{"way3", histsim.CommitTime, 3, true}, {"rel4", histsim.CommitTime, 2, true}, {"rel3", histsim.CommitTime, 3, true}, {"way2r", histsim.CommitTime, 6, true}, {"way3", histsim.PreCommit, 3, false}, {"rel4", histsim.PreCommit, 2, false}}
+			spaces = []spc{{"way3", histsim.CommitTime, 3, false}, {"way3", histsim.CommitTime, 2, true}, {"rel4", histsim.CommitTime, 2, true}, {"rel3", histsim.CommitTime, 2, true}, {"way2r", histsim.CommitTime, 5, true}, {"way3", histsim.PreCommit, 2, false}, {"rel4", histsim.PreCommit, 2, false}}
 		}
 		for _, s := range spaces {
 			sp := &histsim.Space{Fam: histsim.FamilyByName(s.fam), Regime: s.regime, Depth: s.depth, Touch2: s.touch2, Skews: []int{0}}
